@@ -1171,9 +1171,8 @@ impl Hist {
                     .get(&info.id)
                     .is_some_and(|ps| ps.iter().any(|p| txs.iter().any(|t| &t.id == p)))
             {
-                // see main.rs: committing a pooled parent together with its pooled child
-                // trips a debug assertion of the pool; only the C17 monitor (which owns
-                // that code path) generates it
+                // only with `--parent-child-blocks off` (used while the pool's promotion
+                // loop still tripped a debug assertion on such blocks)
                 self.count("gen.avoided.block_with_pooled_parent_and_child");
                 continue;
             }
@@ -1679,7 +1678,6 @@ impl Hist {
         let chain = self.model.chain.with(|c| c.clone());
         self.snap = after.clone();
         Ran::Step(Box::new(Step {
-            idx,
             op,
             before,
             after,
